@@ -61,6 +61,26 @@ struct Scen
   std::map<long, bool> returned;
   std::vector<long> retOrder;
   std::vector<std::string> events;
+  // every source Address a receive handed out, with the sender it named at that moment: the property says the SOURCE of a
+  // datagram is preserved - an Address the user keeps must go on naming that sender after later receives
+  std::vector<std::pair<Address, std::string>> keptSources;
+
+  std::string Keep(Address const &from)
+  {
+    auto ord = SrcOrd(from);
+    keptSources.emplace_back(from, ord);
+    return ord;
+  }
+
+  // empty = all kept source addresses still name the sender they named when they were reported
+  std::string KeptSourcesChanged() const
+  {
+    for(auto const &k : keptSources) {
+      auto now = SrcOrd(k.first);
+      if(now != k.second) return "a source address reported as sender " + k.second + " now names sender " + now;
+    }
+    return "";
+  }
 
   std::string Host() const { return v6 ? "::1" : "127.0.0.1"; }
 
@@ -90,7 +110,7 @@ struct Scen
       s.async.emplace(SocketUdpBuffered(std::move(u), std::stoul(w[3]), std::stoul(w[4])), *driver,
                       [this, i](BufferPtr b, Address from) {
                         events.push_back("recv " + std::to_string(i) + " " + std::to_string(b->size()) + " " +
-                                         std::to_string(Fnv(b->data(), b->size())) + " " + SrcOrd(from));
+                                         std::to_string(Fnv(b->data(), b->size())) + " " + Keep(from));
                       });
     }
     // the property's "receive queue not overrun": make room (after the library captured its rxBufSize)
@@ -232,11 +252,11 @@ struct Scen
         std::string buf(size, '\0');
         auto r = s.basic->ReceiveFrom(buf.data(), buf.size(), Duration(T));
         if(!r) { har::obs("none"); return; }
-        har::obs("got " + std::to_string(r->first) + " " + std::to_string(Fnv(buf.data(), std::min(r->first, size))) + " " + SrcOrd(r->second));
+        har::obs("got " + std::to_string(r->first) + " " + std::to_string(Fnv(buf.data(), std::min(r->first, size))) + " " + Keep(r->second));
       } else {
         auto r = s.buff->ReceiveFrom(Duration(T));
         if(!r) { har::obs("none"); return; }
-        har::obs("got " + std::to_string(r->first->size()) + " " + std::to_string(Fnv(r->first->data(), r->first->size())) + " " + SrcOrd(r->second));
+        har::obs("got " + std::to_string(r->first->size()) + " " + std::to_string(Fnv(r->first->data(), r->first->size())) + " " + Keep(r->second));
       }
     });
   }
@@ -281,7 +301,13 @@ int main()
       } catch(std::exception const &e) {
         har::obs(std::string("throw harness ") + e.what());
       }
+      // the source of every datagram reported so far must still be what it was (an Address handed out is a value)
+      if(auto changed = sc.KeptSourcesChanged(); !changed.empty()) {
+        har::obs("crash " + changed);
+        break;
+      }
     }
+    sc.keptSources.clear();
     sc.socks.clear();
     sc.futs.clear();
     sc.driver.reset();
